@@ -13,6 +13,14 @@ CLAIMED = {
              'procedure, not a length bound, so "proof" (machine-discharged obligations, no bound) is the right level.',
         note='Trusted: z3 5.1 regex solver, vlib/relang.py translation (validated each run against the real re on ~1200 strings from '
              'the repo and on every witness), CPython sre parser. match() == language membership because no look-around/backrefs occur (checked).'),
+    'C07': dict(
+        category='model_checking', design_ref='DESIGN.md section 3 C07, 2.1, 2.2',
+        technique='symbolic execution of the real normalize_event_code on symbolic-character templates of the live regex parse tree; z3 path conditions, witnesses and equality queries',
+        text='Bounded symbolic checking: every template of PAT_EVENT_CODE within the stated repeat/whitespace bounds is executed with all '
+             'characters symbolic; each path covers every string of its cell domains and is decided by the path condition (z3), so the '
+             'claim holds for all strings of the bounded grammar, not for samples of it.',
+        note='Assumes the symbolic regex matcher and string proxies agree with CPython (validated on one solver witness per path against the plain library) '
+             'and the representative character domains (0-9 + 2 non-ASCII digits, 29 whitespace chars). Bounds in evidence.'),
 }
 
 NOT_APPLICABLE = {
